@@ -132,7 +132,7 @@ def build(spec: dict, world: World) -> Built:
         reqs = _bounded_requests(size)
         b.request_bytes = sum(r[1] for r in reqs)
         b.open = lambda: F.open(world, main, img, spec["open"])
-        b.use = lambda s: _read_reqs(s, reqs)
+        b.use = lambda s: _read_reqs(s, reqs + getattr(b, "extra_reqs", []))
     elif t == "chain":
         cc = spec["ccase"]
         open_fn, views, expect_fail, rs_fn = chains.build(cc, world)
